@@ -378,7 +378,7 @@ func main() {
 	c.Cov["safeadd_grid"] = "12x12 = 144 cells over {minInt, minInt+1, -2, -1, 0, 1, 2, maxInt/2, maxInt/2+1, maxInt-2, maxInt-1, maxInt}; both operands >= 0 (64 cells): exact saturating sum from math/big; one negative (64): the other operand; both negative (16): documentation does not define the value, only a non-negative result is required (the code returns 1)"
 	c.Cov["bounds"] = map[string]any{
 		"max_selection_nodes": map[string]int{"single-file": plans[0].n, "follow-schema": plans[1].n},
-		"grammar":             "ordered selection sets over Query{str,z:str,arg[6 argument forms],t,targ[3 argument forms],node,u,__typename} Mutation{m1,m3} T{id,z:id,name,kid,peer,u,__typename} S{id,peer} Node{id,__typename} Named{name} Deep{peer} U{__typename}; inline fragments without / with type condition in {T,S,Node,Named,Deep,U} (where the types overlap); named fragment definition+spread on the same conditions; re-use of any fragment of the document; argument forms of Query.arg (leaf, default x=7): none, x:3, x:$v, x:2 y:[p,q], x:-4, x:null; of Query.targ (composite, added by this check as `extend type Query { targ(x: Int = 6): T }`, default x=6): none, x:3, x:$v; variable modes for $v: given 2, variable default 4, absent, null",
+		"grammar":             "ordered selection sets over Query{str,z:str,arg[6 argument forms],t,targ[3 argument forms],node,u,rep,__typename} Rep{old,rows,newFoo,new_foo} Row{id} (Rep.old is bound to the Go field of Rep.rows by @goField(name:) and is declared before it, Rep.new_foo normalises to the Go field of Rep.newFoo: one ComplexityRoot member per pair, assignments are per member and the oracle is asked under every schema name) Mutation{m1,m3} T{id,z:id,name,kid,peer,u,__typename} S{id,peer} Node{id,__typename} Named{name} Deep{peer} U{__typename}; inline fragments without / with type condition in {T,S,Node,Named,Deep,U} (where the types overlap); named fragment definition+spread on the same conditions; re-use of any fragment of the document; argument forms of Query.arg (leaf, default x=7): none, x:3, x:$v, x:2 y:[p,q], x:-4, x:null; of Query.targ (composite, added by this check as `extend type Query { targ(x: Int = 6): T }`, default x=6): none, x:3, x:$v; variable modes for $v: given 2, variable default 4, absent, null",
 		"assignments":         "custom functions on <= 2 of the Object.field pairs the operation touches (for interface selections: every implementing object), each from {const 0, 1, 5, -3, maxInt, maxInt-1, child*2 saturating, child+x+10*len(y) (= child on fields without arguments)}; plus one assignment per operation putting maxInt on every field the operation does not touch",
 		"limits":              "{0, 1, c-1, c, c+1, maxInt} (de-duplicated, c = reference complexity)",
 		"executor_gate":       fmt.Sprintf("every limit x every assignment for operations with <= %d nodes (layout single-file) / <= %d nodes (layout follow-schema); for larger operations every limit x the first assignment reaching each distinct reference value", plans[0].fullGate, plans[1].fullGate),
@@ -411,14 +411,48 @@ func main() {
 // custom complexity is count*childComplexity; the probe itself has arguments on a leaf only).
 func probeFiles() map[string]string {
 	files := probe.ReadProbe("exec")
-	files["c14_extra.graphql"] = "extend type Query { targ(x: Int = 6): T }\n"
+	files["c14_extra.graphql"] = c14ExtraSchema
+	files["c14model/model.go"] = c14Model
 	yml := strings.Replace(files["gqlgen.yml"], "  - schema.graphql\n", "  - schema.graphql\n  - c14_extra.graphql\n", 1)
 	if yml == files["gqlgen.yml"] {
 		broken("probes/exec/gqlgen.yml has no '  - schema.graphql' entry to extend")
 	}
+	const bind = "  Rep:\n    model: probe/c14model.Rep\n  Row:\n    model: probe/c14model.Row\n"
+	if strings.Contains(yml, "\nmodels:\n") {
+		yml = strings.Replace(yml, "\nmodels:\n", "\nmodels:\n"+bind, 1)
+	} else {
+		yml += "models:\n" + bind
+	}
 	files["gqlgen.yml"] = yml
 	return files
 }
+
+// What this check adds to the shared exec probe:
+//   - targ: a composite field with an argument (the documented use of custom complexity is
+//     count*childComplexity; the probe itself has arguments on a leaf only);
+//   - Rep: schema fields that share ONE Go field and hence one ComplexityRoot member - an old name
+//     kept through @goField(name:) (declared BEFORE the field it aliases) and a newFoo/new_foo
+//     pair (second name AFTER the first). Rep/Row are bound to a hand-written model (modelgen
+//     would emit the Go field twice).
+const c14ExtraSchema = `extend type Query { targ(x: Int = 6): T  rep: Rep }
+type Row { id: ID! }
+type Rep {
+  old: [Row!]! @goField(name: "rows")
+  rows: [Row!]!
+  newFoo: String
+  new_foo: String
+}
+`
+
+const c14Model = `package c14model
+
+type Row struct{ ID string }
+
+type Rep struct {
+	Rows   []*Row
+	NewFoo *string
+}
+`
 
 // omitVariant generates the probe with omit_complexity: true and runs a tiny program in it.
 // A failure of the variant itself (does not compile, Complexity() reports a value) is returned
